@@ -405,6 +405,207 @@ class swv_over_drifting_input:
                         yield {"n": n, "chunks": ch, "w1": w1, "w2": w2}
 
 
+@contract("dask_array/io/_from_array.py::FromArray._layer", spec="lock-held-during-reads", props=["C10"])
+class from_array_lock_held:
+    """from_array(src, lock=L): every read of the source -- whatever rewrites moved into the read (a slice kept as a
+    deferred region, a rechunk, an integer index) -- happens while L is held, so a source that is not safe to read
+    concurrently gives the same data under every schedule.  Decided without racing threads: the recording source checks
+    at each request that the lock it was registered with is held."""
+    bounded_only = True
+    params = {"shape": "const", "chunks": "const", "post": "const", "asarray": "const"}
+    scope = "1-D / 2-D recording sources; unsliced, sliced (deferred region), rechunked, integer-indexed, combined; asarray True / False"
+
+    def real():
+        return lambda: None
+
+    def call(fn, shape, chunks, post, asarray):
+        import numpy as np
+        import dask_array as da
+
+        class RecLock:
+            def __init__(self):
+                self.depth = 0
+                self.acquired = 0
+
+            def acquire(self, *a, **k):
+                self.depth += 1
+                self.acquired += 1
+                return True
+
+            def release(self):
+                self.depth -= 1
+
+            def __enter__(self):
+                self.acquire()
+                return self
+
+            def __exit__(self, *exc):
+                self.release()
+
+        lock = RecLock()
+        data = np.arange(float(np.prod(shape))).reshape(shape)
+
+        class Src:
+            shape = data.shape
+            dtype = data.dtype
+            ndim = data.ndim
+
+            def __init__(self):
+                self.unlocked = []
+                self.reads = 0
+
+            def __getitem__(self, idx):
+                out = data[idx]
+                if np.size(out):
+                    self.reads += 1
+                    if lock.depth <= 0:
+                        self.unlocked.append(idx)
+                return out
+
+            def __dask_tokenize__(self):
+                return ("locked-src", shape, chunks, post, asarray)
+
+        src = Src()
+        x = da.from_array(src, chunks=chunks, lock=lock, asarray=asarray)
+        ops = {"none": lambda a: a, "slice": lambda a: a[1:-1], "slice-slice": lambda a: a[1:][2:7], "rechunk": lambda a: a.rechunk(3),
+               "slice-rechunk": lambda a: a[2:].rechunk(4), "int": lambda a: a[3], "slice-plus": lambda a: (a[1:9] + 1).sum(),
+               "strided": lambda a: a[::2]}
+        y = ops[post](x)
+        src.reads = 0
+        del src.unlocked[:]
+        got = np.asarray(y.compute(scheduler="sync"))
+        refs = dict(ops, **{"rechunk": lambda a: a, "slice-rechunk": lambda a: a[2:]})
+        want = np.asarray(refs[post](data))
+        return src.reads, list(src.unlocked), got, want
+
+    def requires(shape, chunks, post, asarray):
+        return True
+
+    def ensures(result, shape, chunks, post, asarray):
+        reads, unlocked, got, want = result
+        return {"source-was-read": reads >= 1, "every-read-holds-the-lock": unlocked == [], "values-equal-numpy": _same(got, want)}
+
+    def domain(tier, rng):
+        for shape, chunks in (((12,), (4,)), ((12,), (5,)), ((10, 4), (4, 2))):
+            for post in ("none", "slice", "slice-slice", "rechunk", "slice-rechunk", "int", "slice-plus", "strided"):
+                for asarray in (True, False):
+                    yield {"shape": shape, "chunks": chunks, "post": post, "asarray": asarray}
+
+
+@contract("dask_array/xarray.py::register", spec="rolling-values", props=["C26"])
+class xarray_rolling_values:
+    """after dask_array.xarray.register(), DataArray.rolling(...).sum/mean/max/min and a cumulative / reduction sample on
+    dask_array-backed objects give the values the NumPy-backed objects give -- for windows below, at and above the block
+    length (the moving-window rewrite exists only for this path).  Runs in a fresh interpreter per case (registration is
+    global state)."""
+    bounded_only = True
+    params = {"n": "const", "chunk": "const", "windows": "const"}
+    scope = "1-D float data of length 21 / 24, blocks of 3..8, windows 2..2*block+1; rolling sum/mean/max/min (min_periods=1), mean, cumsum"
+
+    def real():
+        return lambda: None
+
+    def call(fn, n, chunk, windows):
+        import json
+        import os
+        import subprocess
+        import sys
+        prog = (
+            "import json, sys, numpy as np, xarray as xr\n"
+            "import dask_array.xarray as dx\n"
+            "before = dx.isactive()\n"
+            "dx.register()\n"
+            "after = dx.isactive()\n"
+            "n, chunk, windows = json.loads(sys.argv[1])\n"
+            "v = (np.arange(float(n)) * 7 % 11) - 3\n"
+            "ref = xr.DataArray(v, dims='t')\n"
+            "lazy = xr.DataArray(v, dims='t').chunk({'t': chunk})\n"
+            "kind = type(lazy.data).__module__.split('.')[0]\n"
+            "bad = []\n"
+            "for w in windows:\n"
+            "    for op in ('sum', 'mean', 'max', 'min'):\n"
+            "        a = getattr(ref.rolling(t=w, min_periods=1), op)().values\n"
+            "        b = getattr(lazy.rolling(t=w, min_periods=1), op)().values\n"
+            "        if not np.allclose(a, b, equal_nan=True):\n"
+            "            bad.append([w, op])\n"
+            "for name, f in (('mean', lambda d: d.mean()), ('cumsum', lambda d: d.cumsum('t')), ('diff', lambda d: d.diff('t'))):\n"
+            "    if not np.allclose(f(ref).values, f(lazy).values):\n"
+            "        bad.append([0, name])\n"
+            "print(json.dumps({'before': before, 'after': after, 'kind': kind, 'bad': bad}))\n")
+        env = dict(os.environ)
+        p = subprocess.run([sys.executable, "-c", prog, json.dumps([n, chunk, list(windows)])], capture_output=True, text=True,
+                           env=env, timeout=600)
+        if p.returncode != 0:
+            raise RuntimeError(p.stderr[-400:])
+        return json.loads(p.stdout.strip().splitlines()[-1])
+
+    def requires(n, chunk, windows):
+        return True
+
+    def ensures(result, n, chunk, windows):
+        return {"inactive-before-register-active-after": result["before"] is False and result["after"] is True,
+                "chunked-objects-are-backed-by-dask_array": result["kind"] == "dask_array",
+                "values-equal-the-numpy-backed-ones": result["bad"] == []}
+
+    def domain(tier, rng):
+        for n, chunk in ((21, 7), (24, 4), (24, 8), (21, 3), (21, 5)):
+            yield {"n": n, "chunk": chunk, "windows": tuple(range(2, 2 * chunk + 2))}
+
+
+@contract("dask_array/random/_choice.py::_choice_rng", spec="graph-literals-not-advanced", props=["C10"])
+class random_tasks_repeatable:
+    """executing the graph of a random collection does not modify what the graph holds: a second execution of the same
+    collection -- serial or threaded -- returns the same numbers (a task that advances a bit generator stored in the graph
+    modifies a value it depends on)"""
+    bounded_only = True
+    params = {"op": "const", "chunks": "const"}
+    scope = "Generator / RandomState: random, normal, integers, choice (int and array populations, with and without p), permutation"
+
+    def real():
+        return lambda: None
+
+    def call(fn, op, chunks):
+        import numpy as np
+        import dask_array as da
+        g = da.random.default_rng(7)
+        rs = da.random.RandomState(7)
+        pop = da.from_array(np.arange(10.0) * 3, chunks=5)
+        mk = {
+            "gen-random": lambda: g.random(20, chunks=chunks),
+            "gen-normal": lambda: g.normal(size=20, chunks=chunks),
+            "gen-integers": lambda: g.integers(0, 50, size=20, chunks=chunks),
+            "gen-choice-int": lambda: g.choice(10, size=20, chunks=chunks),
+            "gen-choice-array": lambda: g.choice(pop, size=20, chunks=chunks),
+            "gen-choice-p": lambda: g.choice(4, size=20, chunks=chunks, p=[0.1, 0.2, 0.3, 0.4]),
+            "gen-permutation": lambda: g.permutation(pop),
+            "rs-random": lambda: rs.random_sample(20, chunks=chunks),
+            "rs-choice": lambda: rs.choice(10, size=20, chunks=chunks),
+        }
+        c = mk[op]()
+        c_next = mk[op]()          # a second draw from the same generator object
+        a = np.asarray(c.compute(scheduler="sync"))
+        b = np.asarray(c.compute(scheduler="threads"))
+        d = np.asarray((c + 0).compute(scheduler="sync"))
+        d2 = np.asarray((c + 0).rechunk(4).compute(scheduler="sync"))
+        nxt = np.asarray(c_next.compute(scheduler="sync"))
+        return a, b, d, d2, nxt
+
+    def requires(op, chunks):
+        return True
+
+    def ensures(result, op, chunks):
+        a, b, d, d2, nxt = result
+        return {"second-execution-gives-the-same-numbers": _same(a, b),
+                "derived-collection-sees-the-same-numbers": _same(a, d) and _same(a, d2),
+                "the-next-draw-from-the-same-generator-differs": not _same(a, nxt)}
+
+    def domain(tier, rng):
+        for op in ("gen-random", "gen-normal", "gen-integers", "gen-choice-int", "gen-choice-array", "gen-choice-p", "gen-permutation",
+                   "rs-random", "rs-choice"):
+            for ch in (5, 20, 7):
+                yield {"op": op, "chunks": ch}
+
+
 @contract("dask_array/manipulation/_squeeze.py::squeeze", spec="unknown-axis", props=["C28"])
 class squeeze_unknown_axis:
     """squeeze() without an axis on an array with an unknown-length axis gives NumPy's shape or refuses (known finding F45:
@@ -461,6 +662,9 @@ class store_catalogue:
         import numpy as np
         import dask
         x, expected, info = build(entry, tier)
+        if expected is None:
+            # entries without an independent NumPy reference (approximate routines): storing must write what computing gives
+            expected = np.asarray(x.compute())
         shp = tuple(int(s) for s in x.shape)
         if mode == "whole":
             tgt = np.full(shp, -7.0)
@@ -1996,6 +2200,19 @@ class inplace_sequences:
         elif op == "out":
             da.add(x, 1, out=x)
             want = want + 1
+        elif op.startswith("set-stride"):
+            # strides of 3 and more across block edges: the phase of the stride at each block's left edge
+            a0, s0 = {"set-stride3": (0, 3), "set-stride5-from-1": (1, 5), "set-stride4-rev": (10, -4), "set-stride3-array": (2, 3)}[op]
+            key = slice(a0, None, s0)
+            val = (np.arange(len(want[key])) + 50.0) if op == "set-stride3-array" else -1.0
+            x[key] = val
+            want[key] = val
+        elif op == "set-slice-dask-value-many-chunks":
+            x[2:7] = da.from_array(np.arange(5.0) + 70, chunks=2)
+            want[2:7] = np.arange(5.0) + 70
+        elif op == "set-dask-index-many-chunks":
+            x[da.from_array(np.array([1, 4, 10]), chunks=1)] = 7.0
+            want[[1, 4, 10]] = 7.0
         elif op in ("set-ndarray-key-then-mutate-key", "set-list-key-then-mutate-key", "set-dask-key-then-mutate-key"):
             # the assignment is lazy, but it is the assignment with the index as it was: changing the index object
             # afterwards (NumPy array, list, or a dask index array assigned into in place) must not change x
@@ -2045,7 +2262,9 @@ class inplace_sequences:
     def domain(tier, rng):
         for ch in [(12,), (4, 4, 4), (5, 7), (1, 2, 9)]:
             for op in ("set-int", "set-slice", "set-rev", "set-empty-rev", "set-mask", "set-masked", "out", "ccs",
-                       "set-ndarray-key-then-mutate-key", "set-list-key-then-mutate-key", "set-dask-key-then-mutate-key"):
+                       "set-ndarray-key-then-mutate-key", "set-list-key-then-mutate-key", "set-dask-key-then-mutate-key",
+                       "set-stride3", "set-stride5-from-1", "set-stride4-rev", "set-stride3-array",
+                       "set-slice-dask-value-many-chunks", "set-dask-index-many-chunks"):
                 for touch in (False, True):
                     yield {"chunks": ch, "op": op, "touch": touch}
 
@@ -2250,6 +2469,38 @@ class constructors_touch_no_data:
             r = x.map_blocks(user)
         elif op == "asarray-like":
             r = da.asarray(s2, like=np.empty(0)) + x
+        # point-wise indexing with a key that mixes a lazy dask index (over a recording source) with plain entries:
+        # refused (IndexError) or lazy, never computed while the expression is built
+        elif op in ("vindex-dask-then-list", "vindex-list-then-dask", "vindex-dask-then-slice"):
+            s1 = cat.RecordingSource(np.arange(12).reshape(3, 4).astype(dtype))
+            s2 = cat.RecordingSource(np.array([0, 2, 1, 2]))
+            x = da.from_array(s1, chunks=(2, 2))
+            didx = da.from_array(s2, chunks=2)
+            try:
+                if op == "vindex-dask-then-list":
+                    r = x.vindex[didx, [1, 3, 3, 0]]
+                elif op == "vindex-list-then-dask":
+                    r = x.vindex[[0, 2, 1, 2], didx]
+                else:
+                    r = x.vindex[didx, :]
+            except (IndexError, NotImplementedError, ValueError):
+                return (list(s1.nonempty_requests()), list(s2.nonempty_requests()), list(calls)), 1
+        # F47: a list of raw sources / a raw source used as a small parameter is converted with NumPy at construction
+        elif op == "asarray-list-of-sources":
+            r = da.asarray([s2, s2])
+        elif op == "histogram-bins-source":
+            s2 = cat.RecordingSource(np.array([0.0, 4.0, 8.0, 12.0]))
+            r = da.histogram(x, bins=s2)[0]
+        elif op == "digitize-bins-source":
+            s2 = cat.RecordingSource(np.array([0.0, 4.0, 8.0, 12.0]))
+            r = da.digitize(x, s2)
+        # F32 family: output metadata inferred by calling the user function on a one-element probe
+        elif op == "coarsen-meta":
+            r = da.coarsen(lambda b, axis=None: user(b).sum(axis=axis), x, {0: 2})
+        elif op == "apply_along_axis-infer":
+            r = da.apply_along_axis(lambda t: user(t).sum(), 0, x)
+        elif op == "apply_gufunc-infer":
+            r = da.apply_gufunc(lambda t: user(t).sum(axis=-1), "(i)->()", x.rechunk(-1))
         else:
             raise ValueError(op)
         r.shape, r.chunks, r.dtype, r.name, r.numblocks
@@ -2278,7 +2529,11 @@ class constructors_touch_no_data:
             # F31: the meta of a 0-d source is built with source[()], which selects its one element
             return {"zero-d-source-not-read-for-its-meta": r1 == [] and r2 == [],
                     "no-user-function-call-on-nonempty-block-before-execution": calls == []}
-        if op == "map_blocks-infer-dtype":
+        if op in ("asarray-list-of-sources", "histogram-bins-source", "digitize-bins-source"):
+            # F47: np.asarray on a list of raw sources / on a raw source handed in as a small parameter (bins)
+            return {"raw-source-as-list-item-or-parameter-not-read": r1 == [] and r2 == [],
+                    "no-user-function-call-on-nonempty-block-before-execution": calls == []}
+        if op in ("map_blocks-infer-dtype", "coarsen-meta", "apply_along_axis-infer", "apply_gufunc-infer"):
             # F32: without dtype= / meta=, the dtype is inferred by calling the user function on a block of one element
             return {"no-source-read-before-execution": r1 == [] and r2 == [],
                     "dtype-inference-does-not-call-the-user-function-on-a-nonempty-block": calls == [],
@@ -2292,7 +2547,9 @@ class constructors_touch_no_data:
                 "data-is-read-at-execution": after > 0}
 
     def domain(tier, rng):
-        ops = ["zero-d-source", "map_blocks-infer-dtype", "asarray-like", "setitem-lazy", "setitem-lazy-full", "setitem-scalar", "setitem-mask", "where", "map_blocks", "map_blocks-info",
+        ops = ["zero-d-source", "map_blocks-infer-dtype", "asarray-like", "vindex-dask-then-list", "vindex-list-then-dask",
+               "vindex-dask-then-slice", "asarray-list-of-sources", "histogram-bins-source", "digitize-bins-source",
+               "coarsen-meta", "apply_along_axis-infer", "apply_gufunc-infer", "setitem-lazy", "setitem-lazy-full", "setitem-scalar", "setitem-mask", "where", "map_blocks", "map_blocks-info",
                "map_overlap", "concat-stack", "reshape-T", "reduce", "astype-clip", "rechunk-slice", "take", "mask-select",
                "blockwise-apply", "cumsum", "swv", "asarray", "asarray-dtype", "asanyarray", "array", "coerce-elemwise",
                "coerce-where", "coerce-concatenate", "coerce-setitem"]
